@@ -76,7 +76,7 @@ pub fn run_c09(rep: &Report) -> i32 {
     // a runaway SLG search costs time quadratic in the budget (its state grows): 12 000 ticks ≈ 6 s,
     // 50 000 ≈ 100 s per case, which made the thorough tier exceed two hours; the deeper tier
     // therefore widens the corpus, not the budget
-    let budget: u64 = if thorough { 16_000 } else { 12_000 };
+    let budget: u64 = if thorough { 16_000 } else { 9_000 };
     for_each_program(rep, &corpora, |pc, goals| {
         let mut local: BTreeMap<String, u64> = BTreeMap::new();
         for g in goals {
